@@ -116,6 +116,11 @@ impl CopyHandle {
 
         while pos < len {
             let (next_data, next_hole) = next_sparse_segments(&self.infd, &self.outfd, pos)?;
+            if next_hole <= pos {
+                // The search did not advance: the source shrank below
+                // `pos`. Looping on would never terminate.
+                return Err(XcpError::CopyError(format!("Source file ended prematurely: {:?}", self.infd)).into());
+            }
 
             let _written = self.copy_bytes(next_hole - next_data, updates)?;
             pos = next_hole;
